@@ -12,6 +12,7 @@
 //   thread 2: consume 1 ;                 (split: 1..3 consumers; ensure_started: 1; split_tuple: <=2)
 //   endcase
 //   case <id> kind=when_all n=<2..4> seed=<n> strat=<..>
+//   case <id> kind=when_all_vector n=<0..4> seed=<n> strat=<..>   (C03w; thread programs as for when_all)
 //   thread 0: start ;
 //   thread t+1: complete_<ch> <t> <arg> ;
 //   endcase
@@ -133,6 +134,26 @@ struct manual_sender
 };
 
 // ---------------------------------------------------------------- TERMINAL RECEIVER
+// payload encoding of a value completion: sum v_i * 16^i over the values (when_all) / the elements of the one
+// vector (when_all_vector; the empty vector encodes as 0)
+template <class T>
+static void enc_add(long long& enc, long long& mul, T const& v)
+{
+    if constexpr (std::is_same_v<std::decay_t<T>, std::vector<int>>)
+    {
+        for (int x : v)
+        {
+            enc += (long long) x * mul;
+            mul *= 16;
+        }
+    }
+    else
+    {
+        enc += (long long) v * mul;
+        mul *= 16;
+    }
+}
+
 struct term_recv
 {
     PIKA_STDEXEC_RECEIVER_CONCEPT
@@ -143,7 +164,7 @@ struct term_recv
     {
         // one value: v; n values (when_all): sum v_i * 16^i
         long long enc = 0, mul = 1;
-        ((enc += (long long) ts * mul, mul *= 16), ...);
+        (enc_add(enc, mul, ts), ...);
         nt("rcv.value", nullptr, k, enc);
     }
     template <class E>
@@ -190,6 +211,7 @@ static std::atomic<int> g_nguard{0};
 static std::atomic<int> g_released{0};
 static guard_region g_opguard[64];    // operation states of self-deleting consumers (see below)
 static std::atomic<int> g_nopguard{0};
+static std::atomic<int> g_opreleased{0};    // guarded operation states destroyed so far (note `life.oprel`)
 
 template <class T>
 struct guard_alloc
@@ -259,6 +281,7 @@ static void* op_guard_new(std::size_t n)
 static void op_guard_delete(void* p, std::size_t n) noexcept
 {
     mprotect(p, ((n + 4095) / 4096) * 4096, PROT_NONE);
+    g_opreleased.fetch_add(1);
 }
 
 template <class S>
@@ -273,7 +296,7 @@ struct self_deleting_recv
     void set_value(Ts&&... ts) && noexcept
     {
         long long enc = 0, mul = 1;
-        ((enc += (long long) ts * mul, mul *= 16), ...);
+        (enc_add(enc, mul, ts), ...);
         auto* hh = h;
         nt("rcv.value", nullptr, k, enc);
         delete hh;
@@ -365,6 +388,23 @@ static std::function<void()> make_when_all_life(std::vector<trigger*> const& trg
     return [h] { ex::start(h->op); };
 }
 
+// when_all_vector (C03w): any number of predecessors incl. none (`start()` then completes the receiver itself);
+// life=1: self-deleting operation state in guarded memory, as for when_all
+static std::function<void()> make_when_all_vector(std::vector<trigger*> const& trg, bool life)
+{
+    std::vector<manual_sender<int>> v;
+    for (auto* t : trg) v.push_back(manual_sender<int>{t});
+    auto snd = ex::when_all_vector(std::move(v));
+    using S = decltype(snd);
+    if (life)
+    {
+        auto* h = new self_deleting_op<S>(std::move(snd), 0);
+        return [h] { ex::start(h->op); };
+    }
+    auto* op = new auto(ex::connect(std::move(snd), term_recv{0}));
+    return [op] { ex::start(*op); };
+}
+
 static void install_segv_handler()
 {
     struct sigaction sa;
@@ -387,7 +427,17 @@ static void run_one(case_t const& c)
     consume_fn consume, discard;
     std::function<void()> start_wa;
 
-    if (kind == "when_all")
+    if (kind == "when_all_vector")
+    {
+        int n = int(c.geti("n", 2));
+        if (n < 0) n = 0;
+        if (n > 4) n = 4;
+        for (int i = 0; i < n; ++i) trg.push_back(new trigger{i});
+        bool const life = c.geti("life", 0) != 0;
+        if (life) install_segv_handler();
+        start_wa = make_when_all_vector(trg, life);
+    }
+    else if (kind == "when_all")
     {
         int n = int(c.geti("n", 2));
         if (n < 2) n = 2;
@@ -531,8 +581,9 @@ static void run_one(case_t const& c)
         }
     }
 
-    bool wa = kind == "when_all";
+    bool wa = kind == "when_all" || kind == "when_all_vector";
     bool const life_mode = !wa && c.geti("life", 0) != 0;
+    bool const wa_life = wa && c.geti("life", 0) != 0;
     std::vector<std::function<void()>> bodies;
     for (int i = 0; i < k; ++i)
     {
@@ -551,6 +602,7 @@ static void run_one(case_t const& c)
                     }
                     else { arg = op.args.size() > 0 ? op.args[0] : 0; }
                     if (idx < 0 || idx >= (long long) trg.size()) idx = 0;
+                    if (trg.empty()) continue;
                     do_complete(trg[std::size_t(idx)], ch, arg);
                 }
                 else if (op.name == "consume" && consume)
@@ -578,6 +630,8 @@ static void run_one(case_t const& c)
             // life=1: how many guarded shared states exist / were released when this thread is through
             // (the last such note of the log is the final count)
             if (life_mode) nt("life.rel", nullptr, g_released.load(), g_nguard.load());
+            // when_all / when_all_vector with life=1: guarded operation states destroyed / allocated so far
+            if (wa_life) nt("life.oprel", nullptr, g_opreleased.load(), g_nopguard.load());
         });
     }
     run_os_threads(*ctl, bodies);
